@@ -378,7 +378,7 @@ Qed.
 Theorem effective_time rows perm1 perm2 :
   needs_sorting rows = false -> process_file true perm1 perm2 rows = Ok (spec_file rows).
 Proof.
-  intro Hs. unfold process_file, spec_file. rewrite Hs. cbn [bind sort_dataframe_by_onsets].
+  intro Hs. unfold process_file, process_file_from, spec_file. rewrite Hs. cbn [bind sort_dataframe_by_onsets].
   set (irows := index_from 0 rows).
   set (es := stable_sort e_time (split_entries irows)).
   destruct (sorted_runs es (sort_sorted e_time (split_entries irows))) as [rs [Hc Hok]].
